@@ -70,6 +70,11 @@ def model():
         typed_output('Pair_%s' % n_, 'tPair', text)
     for w in ('1', '2', '3', '"a"', 'true'):
         typed_output('Small_%s' % w.strip('"'), 'tSmall', w)
+    # an additional entry whose name sorts BETWEEN the declared components (age < kind < name): entries are matched by name, not by position
+    typed_output('Person_between_ok', 'tPerson', '{age: 1, kind: 7, name: "a"}')
+    typed_output('Person_between_bad', 'tPerson', '{age: 1, kind: "s", name: 5}')
+    typed_output('Person_before_ok', 'tPerson', '{a0: true, age: 1, name: "a"}')
+    typed_output('Person_before_bad', 'tPerson', '{a0: 1, age: "s", name: "a"}')
     # decision services: the result of the (untyped) output decision is coerced to the service's own output variable type
     services = []
     for (k, w, _) in TYPES:
@@ -160,6 +165,7 @@ def cases():
     out.append(('{InPersonList: [{name: 1, age: 1}, {name: "b", age: 2}, {name: "c", age: 3}]}', {'Echo_InPersonList': '[{age: 1, name: null}, {age: 2, name: "b"}, {age: 3, name: "c"}]'}))
     out.append(('{InPersonList: [{name: "a", age: 1}]}', {'Echo_InPersonList': '[{age: 1, name: "a"}]'}))
     # a context result conforms to a component type only with the declared entry names
+    out.append(('{}', {'Out_Person_between_ok': '{age: 1, kind: 7, name: "a"}', 'Out_Person_between_bad': 'null', 'Out_Person_before_ok': '{a0: true, age: 1, name: "a"}', 'Out_Person_before_bad': 'null'}))
     out.append(('{}', {'Out_Pair_ok': '{a: 1, b: true}', 'Out_Pair_other_name': 'null', 'Out_Pair_other_names': 'null', 'Out_Pair_wrong_kind': 'null', 'Out_Pair_not_a_context': 'null'}))
     for (w, e) in (('1', '1'), ('2', '2'), ('3', '3'), ('4', 'null'), ('0', 'null'), ('"a"', 'null'), ('true', 'null')):
         out.append(('{InSmall: %s}' % w, {'Echo_InSmall': e}))
